@@ -730,17 +730,19 @@ def cbi_attributed(root_abs, raw_entries, marks):
 # --------------------------------------------------------------------------------------------
 # one database
 # --------------------------------------------------------------------------------------------
-def check_db(ctx, drv, case, use_gcc=True, count=True):
-    """case = {tree, entries, intents, root_spelling, cwd_rel, dbplace}; returns a report (for replay)."""
+def check_db(ctx, drv, case, use_gcc=True, count=True, intent_oracle=True, independence=True):
+    """case = {tree, entries, intents, root_spelling, cwd_rel, dbplace}; returns a report (for replay).
+    intent_oracle=False (stream `unopenable', which brings its own kernel/gcc expectation): only the Lean model / spec
+    comparison and (unless independence=False) the entry-by-entry independence are run here."""
     core.import_codebasin()
     report = {}
     with core.Scratch() as d:
         top = os.path.realpath(str(d))
-        tree = case["tree"]
+        tree = subst(case["tree"], top)          # (link targets may be absolute: {TOP}/...)
         materialise(top, tree)
         marks = markers_by_realpath(top, tree)
         entries = subst(case["entries"], top)
-        intents = subst(case.get("intents", []), top)
+        intents = subst(case.get("intents", []), top) if intent_oracle else []
         root_abs = os.path.join(top, tree["root"])
         cwd = subst(case.get("cwd", ""), top) or None
         rootarg = subst(case.get("root_spelling", root_abs), top)
@@ -881,7 +883,7 @@ def check_db(ctx, drv, case, use_gcc=True, count=True):
         # ---------------- entries are independent of each other (on the implementation): what an entry contributes
         # (configurations, warning) is what the database consisting of that entry alone yields -- the statement
         # speaks of "every entry" by itself, so nothing may be carried from one entry to another
-        if "error" not in got and 2 <= len(entries) <= 40:
+        if independence and "error" not in got and 2 <= len(entries) <= 40:
             alone_e, alone_m, trouble = [], [], None
             for e in entries:
                 with open(dbpath, "w") as fh:
@@ -1123,6 +1125,12 @@ def run(ctx, drv, scale=1.0):
     from codebasin import config
 
     config.ArgumentParser("gcc")  # load the compiler definitions once, from the harness's own cwd
+    # the generator of the stream `unopenable' is forked from ctx.rng's state HERE, without consuming anything, so that
+    # the older streams keep their random sequences and the new one does not depend on their wall-clock guards
+    import random as _random
+    fork = _random.Random()
+    fork.setstate(ctx.rng.getstate())
+    unopenable_rng = _random.Random(fork.getrandbits(62) ^ 0x0C13BAD)
     ctx.rule = ("databases of 1-7 entries over random scratch trees (root inside a scratch directory, build directory inside "
                 "and outside the root, a symlinked directory, same-named sources and headers with unique markers); `file`, "
                 "`directory` and -I/-isystem values spelled absolute, relative to the root, relative to the build directory, "
@@ -1146,8 +1154,24 @@ def run(ctx, drv, scale=1.0):
                 "command mentions and at the top of the tree; the set of files attributed per platform by load_database + "
                 "finder.find is compared with the files the reference preprocessor reads, with `gcc -M -MG`, and with the Lean "
                 "model (`reachinc`); non-trivial there = well-formed tree with decoys of at least 3 categories and at least one "
-                "header found outside its includer's directory.")
+                "header found outside its includer's directory. Stream `unopenable' (buckets unopenable-db:*, unopenable-entry:*, "
+                "unopenable-gcc:*, unopenable-frame:load|find|cli): databases of 2-7 entries over a small tree in which 1-3 entries "
+                "name something that is listed in its directory but is not a file one can open - a dangling symbolic link "
+                "(relative / absolute target, chain of links, dangling directory link in the middle of the path: the `generated "
+                "source, generator not run' layout), a regular file used as a directory, a link loop, a directory or a link to a "
+                "directory carrying a source extension - or an unusual file that does open (link to a source, source-named link to "
+                "a non-source file, non-source-named link to a source), next to plainly missing files, object files, link commands "
+                "and empty commands; what must be kept / skipped with a warning is decided by open(2) (ENOENT/ENOTDIR = "
+                "non-existent) and confirmed by gcc -E run in the entry's directory; the result is compared with the result for "
+                "the database without the bad entries through load_database, through finder.find (set map, attributed files; "
+                "these also against the files gcc opens) and, for a sample, through `codebasin -R summary` (exit status, summary, "
+                "cbi.log); non-trivial there = distinct (kind, directory spelling, file spelling) of the bad / unusual entries of "
+                "databases that passed every comparison.")
     ctx.assumptions += [
+        "stream unopenable: `non-existent' is read as open(2) failing with ENOENT or ENOTDIR on `directory`/`file` (gcc: 'No such "
+        "file or directory'); for a link loop (ELOOP) only skipping and the frame are judged, not the warning; the harness runs as "
+        "root, so unreadable directories (EACCES) cannot be produced and are not generated; every `directory` of that stream is a "
+        "real directory (no F-C13-1 hazard)",
         "os.path (posixpath), pathlib.PurePosixPath.suffix, shlex.split and jsonschema are modelled / trusted libraries; "
         "their models are compared exhaustively on short strings on every run",
         "the existence oracle of the model is answered by os.path.exists on exactly the paths the model asks about",
@@ -1168,7 +1192,7 @@ def run(ctx, drv, scale=1.0):
     # corpus first
     for f in sorted((core.VERIF / "corpus" / "C13").glob("*.json")):
         c = json.loads(f.read_text())
-        if "schema_doc" in c:
+        if "schema_doc" in c or c.get("stream") == "unopenable":      # (the latter: replayed by its own stream below)
             continue
         check_db(ctx, drv, c)
     schema = json.loads((core.REPO / "codebasin" / "schema" / "compilation-database.schema").read_text())
@@ -1212,6 +1236,11 @@ def run(ctx, drv, scale=1.0):
                         "implementation": rep.get("implementation")}, cap=8)
     ctx.extra["databases"] = done
     ctx.extra["shared_spelling_databases"] = done3
+    # separate stream: entries whose `file` is a name that cannot be opened (dangling links, directories, ...),
+    # through load_database, finder.find and the command line
+    from harness.gen import unopenable as U
+    big = ctx.thorough() or ctx.budget_scale > 1
+    U.run_stream(ctx, drv, unopenable_rng, ctx.n(50, 500), 16 if big else 4, 90 if big else 14)
     decoy_stream(ctx, drv, limit)
 
 
@@ -1247,6 +1276,13 @@ def replay(ctx, drv, case):
     if "schema_doc" in case:
         schema = json.loads((core.REPO / "codebasin" / "schema" / "compilation-database.schema").read_text())
         return check_schema(ctx, drv, case["schema_doc"], schema)
+    if case.get("stream") == "unopenable":
+        from harness.gen import unopenable as U
+        rep = U.check_case(ctx, drv, case, cli=True, count=False)
+        rep["violations"] = [w for w, _ in ctx.violations]
+        rep["known_findings"] = sorted(ctx.known_seen)
+        rep["correspondence_breaks"] = ctx.corr_breaks[:2]
+        return rep
     if case.get("stream") == "decoy":
         from harness.gen import decoytree as D
         rep = D.check_decoy_tree(ctx, drv, case, use_gcc=True, count=False)
